@@ -85,6 +85,19 @@ Proof.
   exact H.
 Qed.
 
+Lemma types_consistentb_spec fs : types_consistentb fs = true <-> types_consistent fs.
+Proof.
+  unfold types_consistentb, types_consistent. rewrite forallb_forall. split.
+  - intros H n t1 t2 H1 H2. pose proof (H _ H1) as E1. pose proof (H _ H2) as E2. cbn [fst snd] in *.
+    destruct (assoc n (draw_types fs)) as [t|]; [|discriminate].
+    apply String.eqb_eq in E1, E2. congruence.
+  - intros H [n t] Hd. cbn [fst snd].
+    assert (Hin : In n (flat_map (names_of_kind KDraws) fs)).
+    { rewrite <- draws_decls_names. apply in_map_iff. exists (n, t). auto. }
+    destruct (draw_types_total fs n Hin) as [t' Et]. rewrite Et. apply String.eqb_eq.
+    exact (H n t' t (draw_types_declared _ _ _ Et) Hd).
+Qed.
+
 (* ================================================================== 3. the table *)
 Section DrawsP.
   Variable A : Type.
@@ -250,8 +263,8 @@ Section DrawsP.
   End Loop.
 
   (* ---------------------------------------------------------------- T10a *)
-  Theorem table_indexing native user fs cols N R s t table s' d :
-    prepare_draws A S native user fs cols N R s = Some (t, Ok (table, s')) ->
+  Theorem table_indexing_unchecked native user fs cols N R s t table s' d :
+    prepare_draws_unchecked A S native user fs cols N R s = Some (t, Ok (table, s')) ->
     In d (flat_map (names_of_kind KDraws) fs) ->
     t_draws t = sorted_names (flat_map (names_of_kind KDraws) fs) /\
     exists k ty g st m st',
@@ -262,7 +275,7 @@ Section DrawsP.
       forall o r, o < N -> r < R ->
         engine_draw A t table o r d = get2 A m o r /\ get2 A m o r <> None.
   Proof.
-    unfold prepare_draws. destruct (prepare fs cols) as [t0|] eqn:Ep; [|discriminate].
+    unfold prepare_draws_unchecked. destruct (prepare fs cols) as [t0|] eqn:Ep; [|discriminate].
     intros [= -> Hg] Hd. apply prepare_Some in Ep. destruct Ep as [Ht _].
     assert (Hn : t_draws t = sorted_names (flat_map (names_of_kind KDraws) fs)) by (rewrite Ht; reflexivity).
     split; [exact Hn|].
@@ -280,9 +293,38 @@ Section DrawsP.
     - apply (has_shape_get2 N R); assumption.
   Qed.
 
-  (* with consistent declarations, ty is the type of EVERY declaration of d *)
+  Lemma prepare_draws_accepts native user fs cols N R s x :
+    prepare_draws A S native user fs cols N R s = Some x ->
+    types_consistent fs /\ prepare_draws_unchecked A S native user fs cols N R s = Some x.
+  Proof.
+    unfold prepare_draws. destruct (types_consistentb fs) eqn:E; [|discriminate].
+    intros H. split; [apply types_consistentb_spec; exact E | exact H].
+  Qed.
+
+  (* T10a for the preparation as coded now: an accepted preparation has one type per name, so ty is
+     the type of EVERY declaration of d: variable A is fed series A *)
+  Theorem table_indexing native user fs cols N R s t table s' d :
+    prepare_draws A S native user fs cols N R s = Some (t, Ok (table, s')) ->
+    In d (flat_map (names_of_kind KDraws) fs) ->
+    t_draws t = sorted_names (flat_map (names_of_kind KDraws) fs) /\
+    exists k ty g st m st',
+      draw_id t d = Some (Z.of_nat k) /\ nth_error (t_draws t) k = Some d /\
+      In (d, ty) (draws_decls fs) /\ (forall ty0, In (d, ty0) (draws_decls fs) -> ty0 = ty) /\
+      find_generator A S native user ty = Some g /\
+      g st N R = (m, st') /\ has_shape A N R m = true /\
+      forall o r, o < N -> r < R ->
+        engine_draw A t table o r d = get2 A m o r /\ get2 A m o r <> None.
+  Proof.
+    intros Hp Hd. apply prepare_draws_accepts in Hp. destruct Hp as [Hc Hp].
+    destruct (table_indexing_unchecked _ _ _ _ _ _ _ _ _ _ _ Hp Hd)
+      as (Hn & k & ty & g & st & m & st' & H1 & H2 & _ & H4 & H5 & H6 & H7 & H8).
+    split; [exact Hn|]. exists k, ty, g, st, m, st'.
+    repeat (split; [assumption|]). split; [|repeat (split; [assumption|]); assumption].
+    intros ty0 H0. exact (Hc d ty0 ty H0 H4).
+  Qed.
+
+  (* stated from a declaration *)
   Corollary table_indexing_consistent native user fs cols N R s t table s' d ty0 :
-    types_consistent fs ->
     prepare_draws A S native user fs cols N R s = Some (t, Ok (table, s')) ->
     In (d, ty0) (draws_decls fs) ->
     exists k g st m st',
@@ -292,11 +334,20 @@ Section DrawsP.
       forall o r, o < N -> r < R ->
         engine_draw A t table o r d = get2 A m o r /\ get2 A m o r <> None.
   Proof.
-    intros Hc Hp Hd.
+    intros Hp Hd.
     assert (Hin : In d (flat_map (names_of_kind KDraws) fs)).
     { rewrite <- draws_decls_names. apply in_map_iff. exists (d, ty0). auto. }
     destruct (table_indexing _ _ _ _ _ _ _ _ _ _ _ Hp Hin) as (_ & k & ty & g & st & m & st' & H1 & H2 & _ & H4 & H5 & H6 & H7 & H8).
-    rewrite (Hc d ty0 ty Hd H4). exists k, g, st, m, st'. repeat (split; [assumption|]). assumption.
+    rewrite (H4 ty0 Hd). exists k, g, st, m, st'. repeat (split; [assumption|]). assumption.
+  Qed.
+
+  (* a name declared with two types is refused, whatever the generators *)
+  Theorem conflicting_types_refused native user fs cols N R s d t1 t2 :
+    In (d, t1) (draws_decls fs) -> In (d, t2) (draws_decls fs) -> t1 <> t2 ->
+    prepare_draws A S native user fs cols N R s = None.
+  Proof.
+    intros H1 H2 Hne. destruct (prepare_draws A S native user fs cols N R s) as [x|] eqn:E; [|reflexivity].
+    apply prepare_draws_accepts in E. destruct E as [Hc _]. exfalso. exact (Hne (Hc d t1 t2 H1 H2)).
   Qed.
 
   (* the numbering is the position in the sorted, duplicate-free list of names: two different
@@ -364,13 +415,15 @@ Section DrawsP.
 End DrawsP.
 
 (* ------------------------------------------------------------------ conflicting declarations *)
-(* bioDraws("a", "TA") + bioDraws("a", "TB") with TA -> all 1, TB -> all 2: the preparation is accepted
-   and BOTH occurrences read the series of TB, although the first one is declared with type TA *)
+(* bioDraws("a", "TA") + bioDraws("a", "TB") with TA -> all 1, TB -> all 2: WITHOUT the check of the draw
+   types (the code before the repair) the preparation is accepted and both occurrences read the series
+   of TB, although the first one is declared with type TA; with the check it is refused *)
 Definition cst_gen (v : Z) : generator Z unit := fun s N R => (repeat (repeat v R) N, s).
 
 Theorem conflicting_types_refuted :
   exists (fs : list expr) (user : gdict Z unit) t table gA,
-    prepare_draws Z unit [] user fs [] 1 1 tt = Some (t, Ok (table, tt)) /\
+    prepare_draws_unchecked Z unit [] user fs [] 1 1 tt = Some (t, Ok (table, tt)) /\
+    prepare_draws Z unit [] user fs [] 1 1 tt = None /\
     In ("a"%string, "TA"%string) (draws_decls fs) /\
     find_generator Z unit [] user "TA" = Some gA /\
     get2 Z (fst (gA tt 1 1)) 0 0 = Some 1%Z /\
@@ -379,7 +432,7 @@ Proof.
   exists [EBin Plus (EDraws "a" "TA") (EDraws "a" "TB")],
          [("TA"%string, cst_gen 1); ("TB"%string, cst_gen 2)].
   eexists. eexists. exists (cst_gen 1).
-  split; [vm_compute; reflexivity|]. split; [left; reflexivity|].
+  split; [vm_compute; reflexivity|]. split; [vm_compute; reflexivity|]. split; [left; reflexivity|].
   split; [reflexivity|]. split; reflexivity.
 Qed.
 
@@ -565,7 +618,7 @@ Section EngineSpec.
     List.length (engine_draws A val t table o R) = R /\
     forall d, In d (flat_map (names_of_kind KDraws) fs) ->
       exists ty g st m st',
-        assoc d (draw_types fs) = Some ty /\ find_generator A S native user ty = Some g /\
+        In (d, ty) (draws_decls fs) /\ find_generator A S native user ty = Some g /\
         g st N R = (m, st') /\
         forall r, r < R ->
           exists L x, nth_error (engine_draws A val t table o R) r = Some L /\
@@ -574,7 +627,7 @@ Section EngineSpec.
     intros Hp Ho. split; [unfold engine_draws; rewrite map_length, seq_length; reflexivity|].
     intros d Hd. destruct (table_indexing A S _ _ _ _ _ _ _ _ _ _ _ Hp Hd)
       as (_ & k & ty & g & st & m & st' & H1 & H2 & H3 & H4 & H5 & H6 & H7 & H8).
-    exists ty, g, st, m, st'. repeat (split; [assumption|]). intros r Hr.
+    exists ty, g, st, m, st'. split; [exact H3|]. split; [exact H5|]. split; [exact H6|]. intros r Hr.
     destruct (H8 o r Ho Hr) as [E Hn]. destruct (get2 A m o r) as [x|] eqn:Ex; [|congruence].
     exists (draw_lookup A val t table o r), x. split; [|split; [reflexivity|]].
     - unfold engine_draws. rewrite (map_nth_error _ _ _ (nth_error_seq 0 R r Hr)). reflexivity.
